@@ -456,10 +456,27 @@ func c08Aggregates(c *fw.Ctx) {
 		cs := []int{128, 4096, 200}[rng.Intn(3)]
 		w := ref.NewChunkWriter(cs)
 		var data []byte
+		var want []ref.RtmpMsg
+		// in a third of the runs one or two other aggregates precede it on the same connection
+		for pre := 0; pre < []int{0, 0, 1, 2}[rep%4]; pre++ {
+			var ps []ref.RtmpMsg
+			pt := uint32(rng.Intn(1 << 18))
+			for k := 0; k < 1+rng.Intn(3); k++ {
+				ps = append(ps, ref.RtmpMsg{Csid: 4, TypeID: uint8(8 + rng.Intn(2)), StreamID: 1, Ts: pt, Payload: c09Fill(1+rng.Intn(200), uint32(rep*1000+pre*10+k))})
+				pt += uint32(rng.Intn(40))
+			}
+			pa := ref.RtmpMsg{Csid: 4, TypeID: 22, StreamID: 1, Ts: uint32(rng.Intn(1 << 20)), Payload: ref.BuildAggregate(ps)}
+			for _, ch := range w.Encode(pa, 0) {
+				data = append(data, ch...)
+			}
+			pw, _ := ref.SplitAggregate(pa)
+			want = append(want, pw...)
+		}
 		for _, ch := range w.Encode(agg, 0) {
 			data = append(data, ch...)
 		}
-		want, _ := ref.SplitAggregate(agg)
+		aw, _ := ref.SplitAggregate(agg)
+		want = append(want, aw...)
 		// ordinary messages after the aggregate, on the same chunk stream, in every header format
 		// the writer may legally use (the delta formats refer to the aggregate's own timestamp)
 		t2 := baseTs
